@@ -36,9 +36,9 @@ Definition check_cronsys (c : json) : json :=
                            | [] => "" end));
         ("spec_op", JStr "scheduled-rule-runs-once-in-its-location");
         (* (D38, cron.Rem of the head job did not re-arm the timer, is repaired in /repo: nothing is excused) *)
-        (* D28 (e): LinearState.Load does not hand the stored scheduled rules to the add hook, so after a
-           restart with a non-persistent cron they are not registered again *)
-        ("kf", jstrs_of (if good || crashed then [] else if jfB "restart" c && jfB "linear" c then ["D28"] else []));
+        (* (D28 (e), LinearState.Load did not hand the stored scheduled rules to the add hook, is repaired in
+           /repo: after a restart with a non-persistent cron both kinds of state register them again) *)
+        ("kf", jstrs_of []);
         ("features", jstrs_of ((if shared then ["same-id-scheduled-in-two-locations"] else []) ++
                                (if existsb (fun o => String.eqb (jfS "op" o) "remrule" && jfB "ok" o) ops then ["removed-before-due"] else []) ++
                                (if existsb (fun o => String.eqb (jfS "op" o) "addplain" && jfB "ok" o) ops then ["replaced-before-due"] else []) ++
